@@ -60,14 +60,14 @@ Lemma sel_phase_q c s :
   match sel_phase c s with
   | SSent s' t evs => q_retry s' = q_retry s /\
       (c_read c = false -> c_stale c = false -> q_rr s = false -> q_stale s = false -> q_rr s' = false /\ q_stale s' = false)
-  | SDone r evs => r = RPseudo \/ r = RError
+  | SDone _ r evs => r = RPseudo \/ r = RError
   end.
 Proof.
-  assert (NC : forall s0, match no_candidate c s0 with SSent _ _ _ => False | SDone r evs => r = RPseudo \/ r = RError end).
+  assert (NC : forall s0, match no_candidate c s0 with SSent _ _ _ => False | SDone _ r evs => r = RPseudo \/ r = RError end).
   { intros s0. unfold no_candidate. destruct (any_pending s0); auto. destruct (backoff c BoBusy s0) as [? ?| |?]; auto. }
   assert (NC' : forall s0, match no_candidate c s0 with
      | SSent s' t evs => q_retry s' = q_retry s /\ (c_read c = false -> c_stale c = false -> q_rr s = false -> q_stale s = false -> q_rr s' = false /\ q_stale s' = false)
-     | SDone r evs => r = RPseudo \/ r = RError end).
+     | SDone _ r evs => r = RPseudo \/ r = RError end).
   { intros s0. specialize (NC s0). destruct (no_candidate c s0); tauto. }
   unfold sel_phase. cbv zeta.
   match goal with |- context [match ?e with Some _ => _ | None => _ end] => destruct e as [s0|] eqn:G end; [|apply NC'].
@@ -105,7 +105,7 @@ Definition is_region_err (o : outcome) : bool := match o with OSuccess | ORpcErr
 Lemma handle_q c s t o i :
   match handle fixed c s t o i with
   | HRetry s' evs => q_retry s' = q_retry s /\ q_stale s' = q_stale s /\ (q_rr s = false -> q_rr s' = false)
-  | HDone r evs => match r with RSuccess _ => o = OSuccess | RRegionErr j => j = i /\ is_region_err o = true | _ => True end
+  | HDone _ r evs => match r with RSuccess _ => o = OSuccess | RRegionErr j => j = i /\ is_region_err o = true | _ => True end
   end.
 Proof.
   destruct o; cbn [handle]; unfold on_send_fail, on_busy, on_not_leader_hint, with_backoff; cbv zeta; auto;
@@ -123,12 +123,12 @@ Lemma loop_write c script : c_read c = false -> c_stale c = false -> forall s pr
 Proof.
   intros R ST. induction script as [|o rest IH]; intros s prev i X Y; rewrite loop_unfold;
     pose proof (pre_spec fixed c s prev i) as P;
-    assert (P' : match pre fixed c s prev i with HRetry s' _ => q_stale s' = q_stale s /\ (q_rr s = false -> q_rr s' = false) | HDone _ _ => True end)
+    assert (P' : match pre fixed c s prev i with HRetry s' _ => q_stale s' = q_stale s /\ (q_rr s = false -> q_rr s' = false) | HDone _ _ _ => True end)
       by (unfold pre; destruct (c_interruptible c && killed s && _); [exact I|]; destruct prev as [[t o']|]; [pose proof (handle_q c s t o' (pred i)) as HQ; destruct (handle fixed c s t o' (pred i)); tauto | auto]);
-    destruct (pre fixed c s prev i) as [s1 evs1|r evs1]; try (destruct P as [P0 _]; cbn [fst]; now apply att_all_noatt); destruct P as [_ P2]; destruct P' as [P3 P4]; cbv zeta;
+    destruct (pre fixed c s prev i) as [s1 evs1|sd r evs1]; try (destruct P as [P0 _]; cbn [fst]; now apply att_all_noatt); destruct P as [_ P2]; destruct P' as [P3 P4]; cbv zeta;
     set (s1' := if 0 <? i then set_q_retry true s1 else s1);
     assert (X1 : q_rr s1' = false /\ q_stale s1' = false) by (subst s1'; destruct (0 <? i); cbn; split; auto; congruence);
-    pose proof (sel_phase_spec c s1') as Q; pose proof (sel_phase_q c s1') as Q'; destruct (sel_phase c s1') as [s2 t evs2|r evs2].
+    pose proof (sel_phase_spec c s1') as Q; pose proof (sel_phase_q c s1') as Q'; destruct (sel_phase c s1') as [s2 t evs2|sd2 r evs2].
   all: try (destruct Q as [Q1 _]; cbn [fst]; apply att_all_app; apply att_all_noatt; assumption).
   all: destruct Q as (_ & Q2 & _); destruct Q' as [_ Q']; destruct X1 as [X1 Y1]; destruct (Q' R ST X1 Y1) as [X2 Y2].
   - cbn [fst]. apply att_all_app; [now apply att_all_noatt|]. apply att_all_app; [now apply att_all_noatt|].
@@ -148,13 +148,13 @@ Lemma loop_retry c script : forall s prev i, (0 < i \/ q_retry s = true) ->
 Proof.
   induction script as [|o rest IH]; intros s prev i Hi; rewrite loop_unfold;
     pose proof (pre_spec fixed c s prev i) as P;
-    assert (P' : match pre fixed c s prev i with HRetry s' _ => q_retry s' = q_retry s | HDone _ _ => True end)
+    assert (P' : match pre fixed c s prev i with HRetry s' _ => q_retry s' = q_retry s | HDone _ _ _ => True end)
       by (unfold pre; destruct (c_interruptible c && killed s && _); [exact I|]; destruct prev as [[t o']|]; [pose proof (handle_q c s t o' (pred i)) as HQ; destruct (handle fixed c s t o' (pred i)); tauto | auto]);
-    destruct (pre fixed c s prev i) as [s1 evs1|r evs1]; try (destruct P as [P0 _]; cbn [fst]; now apply att_all_noatt); destruct P as [_ P2]; cbv zeta;
+    destruct (pre fixed c s prev i) as [s1 evs1|sd r evs1]; try (destruct P as [P0 _]; cbn [fst]; now apply att_all_noatt); destruct P as [_ P2]; cbv zeta;
     set (s1' := if 0 <? i then set_q_retry true s1 else s1);
     assert (X1 : q_retry s1' = true)
       by (subst s1'; destruct (0 <? i) eqn:E; cbn; auto; destruct Hi as [Hi|Hi]; [apply Nat.ltb_lt in Hi; congruence|congruence]);
-    pose proof (sel_phase_spec c s1') as Q; pose proof (sel_phase_q c s1') as Q'; destruct (sel_phase c s1') as [s2 t evs2|r evs2].
+    pose proof (sel_phase_spec c s1') as Q; pose proof (sel_phase_q c s1') as Q'; destruct (sel_phase c s1') as [s2 t evs2|sd2 r evs2].
   all: try (destruct Q as [Q1 _]; cbn [fst]; apply att_all_app; apply att_all_noatt; assumption).
   all: destruct Q as (_ & Q2 & _); destruct Q' as [Q' _].
   - cbn [fst]. apply att_all_app; [now apply att_all_noatt|]. apply att_all_app; [now apply att_all_noatt|].
